@@ -158,6 +158,11 @@ def build_expr(rng, spec, max_terms=3, exponent=False, occurrences=1, spin=False
             from adcgen.indices import Index
             if any(s in rest.atoms(Index) for s in carried):
                 continue
+            # an index repeated on the tensor itself already occurs twice
+            repeated = [s for t_ in tens for s in set(t_.atoms(Index))
+                        if s not in contracted and s not in carried]
+            if any(s in rest.atoms(Index) for s in repeated):
+                continue
             if exponent and T_rest == E and any(s in rest.atoms(Index) for s in prod.atoms(Index)):
                 continue
             term = prod * rest
@@ -412,7 +417,7 @@ def main():
     quick = a.tier == "quick"
     TIMEOUT = 20000 if quick else 120000
     run = Run("C14", a.tier, "translation_validation")
-    n = {"remove_tensor": 220, "derivative": 220} if quick else {"remove_tensor": 3000, "derivative": 3000}
+    n = {"remove_tensor": 400, "derivative": 400} if quick else {"remove_tensor": 4000, "derivative": 4000}
     base = seed() * 1000003 + 1400
     for part, fn in fns.items():
         results = pmap(fn, [base + k for k in range(n[part])], limit=120 if quick else 600)
